@@ -21,7 +21,7 @@ PROBES_EXPECTED = ('cache.waiter_cancel_path', 'cache.cross_loop_wait', 'cache.t
 
 
 def batches(tier):
-    k = 1 if tier == 'quick' else 12
+    k = 1 if tier == 'quick' else 40
     return [{'name': 'nofault', 'n': 4000 * k, 'profile': 'c06-nofault'},
             {'name': 'faults', 'n': 20000 * k, 'profile': 'c06'}]
 
